@@ -20,7 +20,7 @@ type c18 struct{}
 func (c18) ID() string    { return "C18" }
 func (c18) Level() string { return "exploration" }
 func (c18) Rule() string {
-	return "env files assembled from the documented line grammar: 1-line files over key shape x separator x quoting x all value texts of <=3 (4 for one key/sep) tokens from a 15-token alphabet; 2- and 3-line files over a line-form alphabet; 4..6-line files over 6 forms; each with and without trailing newline and with 3 lookup functions; plus every byte string over a 12-symbol alphabet up to length 6 (7 thorough) and every distance-1 byte edit of the repository's dotenv fixtures. Reference evaluator decides defined / must-error / outside; non-trivial = the reference defines the result; distinct = distinct (verdict, resulting map) signatures"
+	return "env files assembled from the documented line grammar: 1-line files over key shape x separator x quoting x all value texts of <=3 (4 for one key/sep) tokens from a 15-token alphabet; 2- and 3-line files over a line-form alphabet; 4..6-line files over 6 forms; each with and without trailing newline and with 3 lookup functions; plus every string over a 13-symbol alphabet (12 bytes and the keyword export) up to 6 symbols (7 thorough) and every distance-1 byte edit of the repository's dotenv fixtures. Reference evaluator decides defined / must-error / outside; non-trivial = the reference defines the result; distinct = distinct (verdict, resulting map) signatures"
 }
 func (c18) Assumptions() []string {
 	return []string{
@@ -251,26 +251,31 @@ func (c18) Run(c *core.Ctx) {
 		}
 	}
 	// --- every byte string over the no-crash alphabet
-	alpha := []byte("A=:'\"\\#${} \n")
+	// symbols: 12 single bytes plus the keyword "export" (the only word the grammar gives a meaning)
+	alpha := []string{"A", "=", ":", "'", "\"", "\\", "#", "$", "{", "}", " ", "\n", "export"}
 	maxLen := 6
 	if !c.Quick() {
 		maxLen = 7
 	}
-	buf := make([]byte, 0, maxLen)
+	var syms []string
 	cnt := 0
 	var rec func(int)
 	rec = func(d int) {
 		if d > 0 {
-			run("b/"+fmt.Sprintf("%x", buf), string(buf))
+			str := strings.Join(syms, "")
+			run("b/"+fmt.Sprintf("%x", str), str)
 			cnt++
 		}
 		if d == maxLen || (cnt&4095 == 0 && c.Expired()) {
 			return
 		}
 		for _, b := range alpha {
-			buf = append(buf, b)
+			if b == "export" && d >= 4 && c.Quick() {
+				continue // quick: the keyword within the first 4 positions
+			}
+			syms = append(syms, b)
 			rec(d + 1)
-			buf = buf[:len(buf)-1]
+			syms = syms[:len(syms)-1]
 		}
 	}
 	rec(0)
